@@ -48,6 +48,34 @@ for i in range(N):
         except Exception as ex:
             ok, r = False, repr(ex)
         comp.case(raw, ok, sample=raw[:60].hex(), witness={"raw_hex": raw.hex(), "got": repr(r)[:300]})
+# ---------------------------------------------------------------- histories: a result handed out earlier may be modified by its owner
+c_hist = Component("parse-again-after-earlier-result-was-modified",
+                   "the same wire message parsed, the returned object's headers / params dictionaries extended and emptied by the "
+                   "caller (as HttpDataTransform.transform(request=...) does), then parsed again: the second result is again exactly "
+                   "the message's contents and is not the same object; 200 messages quick / 2000 thorough")
+for i in range(200 if TIER == "quick" else 2000):
+    name, val = tok(rng.randrange(1, 8)), tok(rng.randrange(0, 8))
+    body = blob(rng.randrange(0, 20))
+    if i % 2 == 0:
+        raw = b"GET /" + tok(4) + b"?" + name + b"=" + val + b"x HTTP/1.1\r\n" + name + b": " + val + b"\r\n\r\n" + body
+    else:
+        raw = b"HTTP/1.1 200 OK\r\n" + name + b": " + val + b"\r\n\r\n" + body
+    try:
+        r1 = parse_raw_http(raw)
+        want = (dict(r1.headers), dict(getattr(r1, "params", {})), r1.body)
+        r1.headers[b"X-Added"] = b"1"
+        if hasattr(r1, "params"):
+            r1.params[b"added"] = b"1"
+        r2 = parse_raw_http(raw)
+        got = (dict(r2.headers), dict(getattr(r2, "params", {})), r2.body)
+        r2.headers.clear()
+        r3 = parse_raw_http(raw)
+        got3 = (dict(r3.headers), dict(getattr(r3, "params", {})), r3.body)
+        ok = got == want and got3 == want and want[0] == {name: val} and r1 is not r2
+        w = {"raw_hex": raw.hex(), "first": repr(want)[:300], "second": repr(got)[:300], "third": repr(got3)[:300]}
+    except Exception as ex:       # noqa
+        ok, w = False, {"raw_hex": raw.hex(), "error": repr(ex)}
+    c_hist.case(raw, ok, witness=w)
 for bad in (b"GET /\r\n\r\n", b"A B C D\r\n\r\n", b"HTTP/1.1 200\r\n\r\n", b"HTTP/1.1 xx OK\r\n\r\n", b"", b"\r\n\r\n"):
     try:
         parse_raw_http(bad)
@@ -57,4 +85,4 @@ for bad in (b"GET /\r\n\r\n", b"A B C D\r\n\r\n", b"HTTP/1.1 200\r\n\r\n", b"HTT
     except Exception:
         ok = False
     comp.case(bad, ok, witness={"raw_hex": bad.hex()})
-emit([comp])
+emit([comp, c_hist])
